@@ -29,9 +29,9 @@ import (
 func init() {
 	hx.Register(&hx.Prop{
 		ID: "C05",
-		Rule: "exhaustive: the 17 legal (in, style, explode) cells × {integer, int32, number, boolean, string, array of each, flat object, deepObject with array-valued properties} × " +
+		Rule: "exhaustive: the 17 legal (in, style, explode) cells × parameter names (plain and with regex/URL/header/cookie metacharacters: $filter, a.b, x+y, n|m, q*, u[x], k(1)) × {integer, int32, number, boolean, string, array of each, flat object, deepObject with primitive, array-valued and nested-object properties (all subsets of well-formed keys)} × " +
 			"value sets (sizes 0–3, negative numbers, dots, delimiters inside strings, strings starting with letters of the parameter name, key orders) × absent/empty/present × required × allowEmptyValue × constraint variants (min/max, enum, minItems, required properties), " +
-			"each serialised by an independent Go implementation of the OpenAPI style table (the driver re-encodes and must agree); allOf/anyOf/oneOf over pairs of leaf schemas; " +
+			"each serialised by an independent Go implementation of the OpenAPI style table (the driver re-encodes and must agree); allOf/anyOf/oneOf over pairs of leaf schemas × raw texts and × array/object values serialised for the cell (deepObject included); absence with and without other path/query parameters; " +
 			"plus a seeded stream of malformed / free carrier texts assembled from delimiters, prefixes and primitive tokens (incl. non-decimal integers, odd pair counts, wrong prefixes). " +
 			"A case is non-trivial when the decoder is actually entered (the driver then reports cell, shape, verdict, value kind, round-trip oracle and model≠spec branches); requests with an empty PathParams map / empty query (early return) count as trivial.",
 		Exhaustive: true,
@@ -43,7 +43,7 @@ func init() {
 		Assumptions: []string{
 			"number texts: strconv.ParseFloat is trusted; the model keeps the exact decimal value and the harness compares with the nearest float64",
 			"number texts with '_' digit separators, 'inf'/'nan' or hex floats are reported unsupported by the driver; texts never contain U+001F or non-ASCII characters; cookie values avoid ';', '\"', '\\' and outer spaces (net/http cookie syntax)",
-			"deepObject keys have at most two bracket segments and canonical decimal array indexes (other shapes are reported unsupported by the driver and only run for crashes)",
+			"deepObject keys have at most three bracket segments, canonical decimal array indexes and pairwise different segment lists (other shapes are reported unsupported by the driver and only run for crashes)",
 			"schemas carry no default, pattern, format other than int32, nullable or nested compositions",
 		},
 	})
@@ -137,6 +137,19 @@ func c05Leaf(m map[string]any) *openapi3.Schema {
 				it, _ := pm["items"].(map[string]any)
 				a := &openapi3.Schema{Type: &openapi3.Types{"array"}, Items: c05Prim(it).NewRef()}
 				s.Properties[k] = a.NewRef()
+			} else if jstr(pm, "k") == "obj" {
+				o := &openapi3.Schema{Type: &openapi3.Types{"object"}, Properties: openapi3.Schemas{}}
+				for _, skv := range jlist(pm["props"]) {
+					sp := jlist(skv)
+					if len(sp) != 2 {
+						continue
+					}
+					sk, _ := sp[0].(string)
+					spm, _ := sp[1].(map[string]any)
+					o.Properties[sk] = c05Prim(spm).NewRef()
+				}
+				o.Required = toStrs(pm["required"])
+				s.Properties[k] = o.NewRef()
 			} else {
 				s.Properties[k] = c05Prim(pm).NewRef()
 			}
@@ -187,6 +200,12 @@ func c05Build(c hx.Case) (*openapi3.Parameter, *openapi3filter.RequestValidation
 	in := &openapi3filter.RequestValidationInput{Request: req, Options: &openapi3filter.Options{}}
 	if s, ok := c["path"].(string); ok {
 		in.PathParams = map[string]string{name: s}
+	}
+	if jbool(c, "pathOthers") {
+		if in.PathParams == nil {
+			in.PathParams = map[string]string{}
+		}
+		in.PathParams["zz9"] = "1"
 	}
 	if q := jlist(c["query"]); len(q) > 0 {
 		vals := url.Values{}
@@ -662,7 +681,7 @@ var c05Texts = map[string][]string{
 	"int32":   {"0", "7", "-3", "2147483647", "2147483648", "-2147483648", "-2147483649"},
 	"number":  {"1.5", "-0.25", "3", "1e3", "2.50", "-7", "0.1", ".5", "5."},
 	"boolean": {"true", "false"},
-	"string":  {"a", "id", "dave", "p1", "a.b", ".bashrc", "x,y", "k=v", "a|b", "i d", ";p=", "0x", "ppq", "true", "12", "=", "idid"},
+	"string":  {"a", "id", "dave", "$f", "u[", "p1", "a.b", ".bashrc", "x,y", "k=v", "a|b", "i d", ";p=", "0x", "ppq", "true", "12", "=", "idid"},
 }
 
 var c05Types = []string{"integer", "int32", "number", "boolean", "string"}
@@ -734,6 +753,9 @@ func c05AbsentCar(cl c05Cell, name string, mode int) map[string]any {
 		if mode == 1 {
 			return map[string]any{"path": ""}
 		}
+		if mode == 2 {
+			return map[string]any{"pathOthers": true}
+		}
 	case "query":
 		if mode == 1 {
 			return map[string]any{"query": []any{[]any{name, []any{""}}}}
@@ -759,6 +781,15 @@ func c05AbsentCar(cl c05Cell, name string, mode int) map[string]any {
 func genC05(ctx *hx.Ctx, emit func(hx.Case)) {
 	r := ctx.Rng
 	names := []string{"p", "id"}
+	// parameter names with characters that are special to regular expressions, URLs, header or cookie syntax
+	special := []string{"$filter", "a.b", "x+y", "n|m", "q*", "u[x]", "k(1)"}
+	allNames := append(append([]string{}, names...), special...)
+	nameOK := func(cl c05Cell, name string) bool {
+		if cl.in == "cookie" { // net/http drops cookies whose name is not a token
+			return !strings.ContainsAny(name, "[]()")
+		}
+		return true
+	}
 	bools := []bool{false, true}
 	send := func(c hx.Case, ok bool) {
 		if ok {
@@ -772,7 +803,10 @@ func genC05(ctx *hx.Ctx, emit func(hx.Case)) {
 	}
 	// ---- A. primitives: every cell × type × text × presence flags
 	for _, cl := range c05Cells {
-		for _, name := range names {
+		for ni, name := range allNames {
+			if !nameOK(cl, name) {
+				continue
+			}
 			for _, t := range c05Types {
 				variants := []map[string]any{c05PS(t)}
 				switch t {
@@ -786,7 +820,10 @@ func genC05(ctx *hx.Ctx, emit func(hx.Case)) {
 					variants = append(variants, c05With(c05PS(t), "enum", []any{true}))
 				}
 				for vi, sch := range variants {
-					for _, txt := range c05Texts[t] {
+					for ti, txt := range c05Texts[t] {
+						if ni >= 2 && (vi > 0 || ti%3 != ni%3) {
+							continue // unusual names: a third of the texts, plain schema
+						}
 						for _, req := range bools {
 							if vi > 0 && req {
 								continue
@@ -810,7 +847,10 @@ func genC05(ctx *hx.Ctx, emit func(hx.Case)) {
 	}
 	// ---- B. arrays: every cell × item type × lists of 1..3 texts (all lists of length ≤ 2 over the text set, sampled triples)
 	for _, cl := range c05Cells {
-		for ni, name := range names {
+		for ni, name := range allNames {
+			if !nameOK(cl, name) {
+				continue
+			}
 			for _, t := range c05Types {
 				base := map[string]any{"k": "arr", "items": c05PS(t)}
 				txts := c05Texts[t]
@@ -827,6 +867,9 @@ func genC05(ctx *hx.Ctx, emit func(hx.Case)) {
 				lists = append(lists, []string{}, []string{""}, []string{txts[0], ""}, []string{"", txts[0]})
 				for li, l := range lists {
 					if ni == 1 && !ctx.Thorough() && li%3 != 0 {
+						continue
+					}
+					if ni >= 2 && li%7 != ni%7 {
 						continue
 					}
 					c, ok := c05EncCase(cl, name, base, "arr", "", l, nil, li%5 == 0, false, nil)
@@ -870,8 +913,14 @@ func genC05(ctx *hx.Ctx, emit func(hx.Case)) {
 		"n": {"1.5", "-2"}, "zz": {"1", "q"}, "p": {"7"}}
 	objKeys := []string{"a", "b", "id", "n", "zz", "p"}
 	for _, cl := range c05Cells {
-		for _, name := range names {
+		for ni, name := range allNames {
+			if !nameOK(cl, name) {
+				continue
+			}
 			for si, sch := range objSchemas {
+				if ni >= 2 && si != 0 && si != 2 {
+					continue
+				}
 				var kvsets [][][2]string
 				kvsets = append(kvsets, [][2]string{})
 				for _, k1 := range objKeys {
@@ -893,6 +942,9 @@ func genC05(ctx *hx.Ctx, emit func(hx.Case)) {
 					kvsets = append(kvsets, kv)
 				}
 				for i, kv := range kvsets {
+					if ni >= 2 && i%6 != ni%6 {
+						continue
+					}
 					var extra []any
 					if cl.in == "query" && i%4 == 1 {
 						extra = []any{[]any{"other", []any{"1"}}}
@@ -908,25 +960,71 @@ func genC05(ctx *hx.Ctx, emit func(hx.Case)) {
 			}
 		}
 	}
-	// ---- D. deepObject with array-valued properties
+	// ---- D. deepObject: primitive, array-valued and nested-object properties
+	nested := map[string]any{"k": "obj", "props": []any{[]any{"x", c05PS("integer")}, []any{"y", c05PS("string")}}, "required": []any{}}
 	deepSch := map[string]any{"k": "deep", "props": []any{[]any{"a", c05PS("integer")}, []any{"s", c05PS("string")},
-		[]any{"l", map[string]any{"k": "arr", "items": c05PS("integer")}}}, "required": []any{}}
+		[]any{"l", map[string]any{"k": "arr", "items": c05PS("integer")}}, []any{"o", nested}}, "required": []any{}}
 	deepSch2 := c05With(deepSch, "required", []any{"a"})
+	deepSch3 := c05With(deepSch, "props", []any{[]any{"a", c05With(c05PS("integer"), "max", 6)}, []any{"o", c05With(nested, "required", []any{"x"})}})
+	deepSchemas := []map[string]any{deepSch, deepSch2, deepSch3}
 	deepCl := c05Cell{"query", "deepObject", true}
-	deepKeys := []string{"[a]", "[s]", "[l][0]", "[l][1]", "[l][2]", "[l]", "[a][0]", "[zz]", "[zz][q]", "[l][x]", "[s][k]", "[a][b][c]", "[l][01]"}
+	// D1: structured — every subset of well-formed keys with well-formed (and a few ill-typed) values, every name
+	type dk struct {
+		key  string
+		vals []string
+	}
+	deepParts := []dk{{"[a]", []string{"7", "-4", "x"}}, {"[s]", []string{"dave", ""}}, {"[l][0]", []string{"1"}}, {"[l][1]", []string{"2", "q"}},
+		{"[l][2]", []string{"3"}}, {"[o][x]", []string{"5", "z"}}, {"[o][y]", []string{"w"}}, {"[zz]", []string{"1"}}}
+	for ni, name := range allNames {
+		for mask := 1; mask < 1<<len(deepParts); mask++ {
+			if ni >= 2 && mask%5 != ni%5 {
+				continue
+			}
+			if !ctx.Thorough() && ni < 2 && mask%2 == 0 {
+				continue
+			}
+			for variant := 0; variant < 2; variant++ {
+				q := []any{}
+				differs := variant == 0
+				for bi, part := range deepParts {
+					if mask&(1<<bi) == 0 {
+						continue
+					}
+					v := part.vals[0]
+					if variant == 1 && len(part.vals) > 1 {
+						v = part.vals[(mask+bi)%len(part.vals)]
+						differs = differs || v != part.vals[0]
+					}
+					q = append(q, []any{name + part.key, []any{v}})
+				}
+				if !differs {
+					continue
+				}
+				emit(c05Case(deepCl, name, deepSchemas[(mask+variant)%3], map[string]any{"query": q}, mask%3 == 0, false))
+			}
+		}
+		for mode := 0; mode < 3; mode++ {
+			for _, req := range bools {
+				emit(c05Case(deepCl, name, deepSch2, c05AbsentCar(deepCl, name, mode), req, false))
+			}
+		}
+	}
+	// D2: random — clashes, wrong shapes, deeper keys, several values, foreign keys
+	deepKeys := []string{"[a]", "[s]", "[l][0]", "[l][1]", "[l][2]", "[l]", "[a][0]", "[zz]", "[zz][q]", "[l][x]", "[s][k]", "[a][b][c]", "[l][01]",
+		"[o][x]", "[o][y]", "[o]", "[o][zz]", "[o][x][q]", "[l][0][x]", "[o][x][q][r]"}
 	deepVals := []string{"1", "-4", "x", "", "12", "010"}
-	nDeep := 1500
+	nDeep := 3000
 	if ctx.Thorough() {
-		nDeep = 40000
+		nDeep = 60000
 	}
 	for i := 0; i < nDeep; i++ {
-		name := hx.Pick(r, names)
+		name := hx.Pick(r, allNames)
 		q := []any{}
 		seen := map[string]bool{}
 		for j, k := 0, 1+r.Intn(4); j < k; j++ {
 			key := name + hx.Pick(r, deepKeys)
 			if r.Chance(8) {
-				key = hx.Pick(r, []string{"zz", name, name + "x[a]", "other[a]"})
+				key = hx.Pick(r, []string{"zz", name, name + "x[a]", "other[a]", "p[a]", "filter[a]", "axb[a]"})
 			}
 			if seen[key] {
 				continue
@@ -938,11 +1036,7 @@ func genC05(ctx *hx.Ctx, emit func(hx.Case)) {
 			}
 			q = append(q, []any{key, vals})
 		}
-		sch := deepSch
-		if r.Chance(30) {
-			sch = deepSch2
-		}
-		emit(c05Case(deepCl, name, sch, map[string]any{"query": q}, r.Chance(40), false))
+		emit(c05Case(deepCl, name, hx.Pick(r, deepSchemas), map[string]any{"query": q}, r.Chance(40), false))
 	}
 	// ---- E. compositions over pairs of leaf schemas
 	leaves := []map[string]any{c05PS("integer"), c05PS("string"), c05PS("boolean"), c05With(c05PS("integer"), "max", 6), c05PS("number"),
@@ -979,6 +1073,41 @@ func genC05(ctx *hx.Ctx, emit func(hx.Case)) {
 			}
 		}
 	}
+	// ---- E2. compositions × values serialised for the cell (arrays and objects in their proper style form), every cell incl. deepObject
+	type cv struct {
+		kind string
+		prim string
+		arr  []string
+		obj  [][2]string
+	}
+	compVals := []cv{{"prim", "5", nil, nil}, {"prim", "dave", nil, nil}, {"arr", "", []string{"1", "2"}, nil}, {"arr", "", []string{"a", "b"}, nil},
+		{"arr", "", []string{"7"}, nil}, {"obj", "", nil, [][2]string{{"a", "5"}, {"b", "x"}}}, {"obj", "", nil, [][2]string{{"a", "x"}}}, {"obj", "", nil, [][2]string{{"b", "y"}}}}
+	for ci, cl := range c05Cells {
+		for ki, k := range []string{"allOf", "anyOf", "oneOf"} {
+			for i, l1 := range leaves {
+				for j, l2 := range leaves {
+					if !ctx.Thorough() && (i+j+ci)%2 == 1 {
+						continue
+					}
+					sch := map[string]any{"k": k, "alts": []any{l1, l2}}
+					for vi, v := range compVals {
+						if !ctx.Thorough() && (vi+i+ki)%2 == 1 {
+							continue
+						}
+						name := allNames[(ci+i+j+vi)%len(allNames)]
+						if !nameOK(cl, name) {
+							name = "p"
+						}
+						car, ok := c05Encode(cl, name, v.kind, v.prim, v.arr, v.obj)
+						if !ok || !c05CarrierSafe(cl, car) {
+							continue
+						}
+						emit(c05Case(cl, name, sch, car, (i+vi)%2 == 0, false))
+					}
+				}
+			}
+		}
+	}
 	// ---- F. free / malformed carrier texts
 	toks := []string{"1", "-2", "12", "a", "id", "p", "b", "true", "false", "x", "0x1F", "010", "+5", "00", "0b11", "0o17", "08", "1.5", "1e2", "-", "", "dave", "5", "0", "1_0", "-0", "+0x1"}
 	seps := []string{",", ",", ".", ";", "=", "|", " ", ";p=", ";id=", "", "&"}
@@ -994,6 +1123,12 @@ func genC05(ctx *hx.Ctx, emit func(hx.Case)) {
 			continue
 		}
 		name := hx.Pick(r, names)
+		if r.Chance(30) {
+			name = hx.Pick(r, special)
+			if !nameOK(cl, name) {
+				name = "p"
+			}
+		}
 		sch := hx.Pick(r, allLeaves)
 		mk := func() string {
 			var sb strings.Builder
@@ -1040,6 +1175,9 @@ func genC05(ctx *hx.Ctx, emit func(hx.Case)) {
 		switch cl.in {
 		case "path":
 			car = map[string]any{"path": mk()}
+			if r.Chance(10) {
+				car["pathOthers"] = true
+			}
 		case "header":
 			car = map[string]any{"header": []any{mk()}}
 		case "cookie":
